@@ -223,7 +223,7 @@ func sortedKeys(m map[string]string) []string {
 // Resolve types included lines in place (recursively), applies exclusion and suffix rewriting,
 // and expands the file's definitions over the resulting text.
 func (p *Program) Resolve(lines []Line, opt ResolveOpt, inherited map[string]string, depth int) (*Resolved, error) {
-	if depth > 8 {
+	if depth > 40 {
 		return nil, fmt.Errorf("include depth")
 	}
 	r := &Resolved{Flags: map[rune]bool{}, Defs: map[string]string{}}
